@@ -177,6 +177,10 @@ class Endpoint:
         return n
 
     def shutdown(self, how=None):
+        if self.reset:
+            # after a RST the socket is in state CLOSE: Linux answers shutdown() with ENOTCONN
+            self.sim.count('net.shutdown-after-reset')
+            raise OSError(107, 'Transport endpoint is not connected')
         self._fin()
 
     def _fin(self):
